@@ -27,7 +27,7 @@ def _safe(name: str) -> str:
 
 
 def write_replay(prop: str, unit: str, ob, verif_root: str) -> Tuple[str, bool]:
-    d = os.path.join(verif_root, "evidence", "replays", prop)
+    d = os.path.join(os.environ.get("PYVC_EVIDENCE_DIR") or os.path.join(verif_root, "evidence"), "replays", prop)
     os.makedirs(d, exist_ok=True)
     if isinstance(ob, dict):  # violation reported by a bounded stand-in: already a native input
         path = os.path.join(d, _safe(ob.get("obligation", "standin")) + ".json")
